@@ -600,6 +600,18 @@ def aux_lines(cites, style, data, rng=None):
     lines.append('\\bibdata{%s}' % ','.join(data))
     return lines
 
+def nest_aux(rng, lines, depth=2, tag='ch'):
+    """move a run of \\citation lines from the middle of an .aux file into an \\@input'ed file (and, one level down, again);
+    citation lines stay before and after the \\@input, so reading the inputs in place matters.  -> (lines, extra files)"""
+    idx = [i for i, l in enumerate(lines) if l.startswith('\\citation{')]
+    if len(idx) < 3 or depth == 0:
+        return lines, []
+    a = rng.randint(1, len(idx) - 2); b = rng.randint(a, len(idx) - 2)
+    lo, hi = idx[a], idx[b]
+    name = '%s%d.aux' % (tag, depth)
+    inner, extra = nest_aux(rng, ['\\relax'] + lines[lo:hi + 1] + (['\\citation{%s}' % rng.choice(KEYS)] if rng.random() < 0.5 else []), depth - 1, tag)
+    return lines[:lo] + ['\\@input{%s}' % name] + lines[hi + 1:], [[name, 0, inner]] + extra
+
 def bst_file(name):
     return [name + '.bst', 1, SYN[name]]
 
@@ -697,6 +709,8 @@ def gen_engine(tier, rng):
             if rng.random() < 0.05: lines = [l for l in lines if not l.startswith('\\bibdata')]
             if rng.random() < 0.06: names_bad = data + ['nofile']; lines = aux_lines(cites, style, names_bad, rng)
             if rng.random() < 0.05: lines = aux_lines(cites, 'nostyle', data, rng)
+            if rng.random() < 0.35:
+                lines, extra = nest_aux(rng, lines); files += extra
             files.append([auxname, 0, lines])
             yield ('engine_aux', 2, [files, [0, auxname, so, fo, m]])
         elif mode == 1:
@@ -711,6 +725,27 @@ def gen_engine(tier, rng):
         else:
             co = [cites] if rng.random() < 0.85 else []
             yield ('engine_file', 2, [files, [3, names[0] + U.SUFFIX[fmt], style, co, fo, m]])
+
+def gen_aux_nested(tier, rng):
+    """.aux files that \\@input chapter files between their own \\citation lines (depth <= 2; \\bibstyle / \\bibdata in the
+    parent, now and then in a chapter): the inputs are read IN PLACE, so the citation order -- and with a non-sorting style
+    the item order -- is that of the flattened document"""
+    for i in range(220 if tier == 'quick' else 2000):
+        db = rand_db(rng, nmax=7, dups=False)
+        keys = [e[0] for e in db]
+        cites = [rng.choice(keys + ['zz']) for _ in range(rng.randint(4, 8))] if keys else ['zz', 'a', 'b', 'c']
+        if rng.random() < 0.15: cites.insert(rng.randint(0, len(cites)), '*')
+        style = rng.choice(['dump', 'dump', 'rev', 'bytitle', 'count'])
+        lines = aux_lines(cites, style, ['refs'])
+        if rng.random() < 0.2:       # the style named in a chapter, before the parent's own \\bibstyle line is reached
+            other = rng.choice(['rev', 'dump', 'types'])
+            lines.insert(rng.randint(2, len(lines) - 2), '\\bibstyle{%s}' % other)
+        else:
+            other = None
+        lines, extra = nest_aux(rng, lines)
+        files = [bst_file(style), ['refs.bib', 2, [0, db]]] + ([bst_file(other)] if other and other != style else []) + extra
+        files.append(['doc.aux', 0, lines])
+        yield ('engine_aux_nested', 2, [files, [0, 'doc.aux', [], [], rng.choice([2, 1])]])
 
 def gen_history(tier, rng):
     """consecutive engine calls in one process: the same style NAME with different contents (other directory, or the
@@ -892,6 +927,11 @@ PINNED = [
                    [0, 'doc.aux', ['rev'], [1], 2]]),
     ('pinned', 2, [[bst_file('dump'), bst_file('rev'), ['db0.bib', 2, [0, [['a', 'book', [['title', 'T']]], ['b', 'misc', []]]]],
                     ['doc.aux', 0, aux_lines(['a', 'b'], 'dump', ['db0'])]], [0, 'doc.aux', ['rev'], [], 2]]),
+    # C06i: \\@input'ed files are read in place (citations of a chapter come before the parent's later citations)
+    ('pinned', 2, [[bst_file('dump'), ['refs.bib', 2, [0, [['a', 'book', []], ['b', 'misc', []], ['c', 'misc', []], ['d', 'misc', []]]]],
+                    ['ch1.aux', 0, ['\\relax', '\\citation{b}', '\\@input{ch2.aux}', '\\citation{c}']], ['ch2.aux', 0, ['\\citation{d}']],
+                    ['doc.aux', 0, ['\\relax', '\\citation{a}', '\\@input{ch1.aux}', '\\citation{a,b}', '\\bibstyle{dump}', '\\bibdata{refs}']]],
+                   [0, 'doc.aux', [], [], 2]]),
     # C06e: the database files are read in the order of the \\bibdata list ('b,a' -- not sorted, not de-duplicated)
     ('pinned', 2, [[bst_file('dump'), ['b.bib', 2, [0, [['k1', 'book', [['title', 'in b']]], ['x', 'misc', []]]]],
                     ['a.bib', 2, [0, [['k2', 'misc', []], ['k1', 'article', [['title', 'in a']]]]]],
@@ -904,7 +944,7 @@ def gen(tier, rng):
     U.base_dir()          # made here, before the worker processes are forked, removed by this process at exit
     for c in PINNED:
         yield c
-    for g in (gen_aux, gen_engine, gen_aux_order, gen_history, gen_real, gen_sort, gen_pairs, gen_splitext):
+    for g in (gen_aux, gen_engine, gen_aux_order, gen_aux_nested, gen_history, gen_real, gen_sort, gen_pairs, gen_splitext):
         for c in g(tier, rng):
             yield c
 
